@@ -42,8 +42,7 @@ def Pc.sleepy (p : Pc) : Prop := p = .wListed ∨ p = .parking ∨ p = .parked
 
 /-- the raiser has popped g's node and is about to wake g -/
 def Pc.targets (p : Pc) (g : Nat) : Prop :=
-  (∃ st, p = .rPopped st g) ∨ (∃ st, p = .rGotData st g g) ∨ (∃ st, p = .rGaveNode st g) ∨
-  (∃ st, p = .rReady st g)
+  p = .rPopped g ∨ p = .rGotData g g ∨ p = .rGaveNode g ∨ p = .rReady g
 
 structure Inv (s : St) : Prop where
   cnt : s.counter = s.updates
@@ -53,26 +52,33 @@ structure Inv (s : St) : Prop where
   nodup : s.stack.Nodup
   listed : ∀ n, n ∈ s.stack →
     (s.pc n).sleepy ∧ s.wakes n + 1 = s.parks n ∧ (∀ g, s.waker n ≠ some g) ∧ s.ndata n = n
-  wEarly : ∀ f n, (s.pc f = .wGotNode n ∨ s.pc f = .wLoop n) → n = f
-  wData : ∀ f, (s.pc f = .wLoop f ∨ (∃ c, s.pc f = .wLdC f c) ∨ (∃ c h, s.pc f = .wLdH f c h) ∨
-      (∃ c h, s.pc f = .wNext f c h)) → s.ndata f = f
+  wEarly1 : ∀ f n, s.pc f = .wGotNode n → n = f
+  wEarly2 : ∀ f n, s.pc f = .wLoop n → n = f
+  wData1 : ∀ f n, s.pc f = .wLoop n → s.ndata f = f
+  wData2 : ∀ f n c, s.pc f = .wLdC n c → s.ndata f = f
+  wData3 : ∀ f n c h, s.pc f = .wLdH n c h → s.ndata f = f
+  wData4 : ∀ f n c h, s.pc f = .wNext n c h → s.ndata f = f
   snapW1 : ∀ f n c, s.pc f = .wLdC n c → c ≤ s.counter ∧ n = f
   snapW2 : ∀ f n c h, s.pc f = .wLdH n c h → c ≤ s.counter ∧ (c = s.counter → s.head = h) ∧ n = f
   snapW3 : ∀ f n c h, s.pc f = .wNext n c h →
     c ≤ s.counter ∧ (c = s.counter → s.head = h) ∧ n = f ∧ s.next n = h ∧ h ≠ .raised
-  snapR1 : ∀ f st c, s.pc f = .rLdC st c → c ≤ s.counter
-  snapR2 : ∀ f st c h, s.pc f = .rLdH st c h → c ≤ s.counter ∧ (c = s.counter → s.head = h)
-  snapR3 : ∀ f st c n x, s.pc f = .rNext st c n x →
+  snapR1 : ∀ f c, s.pc f = .rLdC c → c ≤ s.counter
+  snapR2 : ∀ f c h, s.pc f = .rLdH c h → c ≤ s.counter ∧ (c = s.counter → s.head = h)
+  snapR3 : ∀ f c n x, s.pc f = .rNext c n x →
     c ≤ s.counter ∧ (c = s.counter → s.head = .node n ∧ x = s.next n)
   waker_target : ∀ f g, s.waker f = some g → (s.pc g).targets f
-  target_waker : ∀ f g, (s.pc g).targets f → s.waker f = some g
+  target_waker1 : ∀ f g, s.pc g = .rPopped f → s.waker f = some g
+  target_waker2 : ∀ f g, s.pc g = .rGotData f f → s.waker f = some g
+  target_waker3 : ∀ f g, s.pc g = .rGaveNode f → s.waker f = some g
+  target_waker4 : ∀ f g, s.pc g = .rReady f → s.waker f = some g
   waker_sleepy : ∀ f g, s.waker f = some g →
     (s.pc f).sleepy ∧ s.wakes f + 1 = s.parks f ∧ f ∉ s.stack ∧ s.ndata f = f
   owed : ∀ f, (s.pc f).sleepy → s.wakes f + 1 = s.parks f → f ∈ s.stack ∨ ∃ g, s.waker f = some g
   counts : ∀ f, s.wakes f = s.parks f ∨ ((s.pc f).sleepy ∧ s.wakes f + 1 = s.parks f)
   woken_parked : ∀ f, (s.pc f).sleepy → s.wakes f = s.parks f → s.pc f = .parked
   marker : ∀ f, s.scratch f = true ↔ s.pc f = .parked
-  ready_parked : ∀ r st g, s.pc r = .rReady st g → s.pc g = .parked
+  ready_parked : ∀ r g, s.pc r = .rReady g → s.pc g = .parked
+  gotData_eq : ∀ f m g, s.pc f = .rGotData m g → m = g
 
 theorem inv_init : Inv (init (fun k => k)) := by
   constructor <;> simp [init, headOf, Chain, Pc.sleepy, Pc.targets]
